@@ -16,6 +16,9 @@ var Worlds = map[string]core.World{
 	"C05": crashWorld{},
 	"C09": fragWorld{},
 	"C10": ioFaultWorld{},
+	"C04": liveWorld{prop: "C04"},
+	"C06": liveWorld{prop: "C06"},
+	"C14": liveWorld{prop: "C14"},
 }
 
 // SelfTest validates the reference models against the specification's own examples and
